@@ -178,9 +178,10 @@ def r_masks(ctx, model):
 def r_dispatch(ctx, model):
     class Only(Proxy):
         def check(self, cond, instance, *a, **k):
-            if "dispatched" in instance or "selects a class" in instance:
+            if "every non-acoustic" in instance or "dispatched" in instance:
                 return self.ctx.check(cond, instance, *a, **k)
             return cond
+    C11.r_loop(Only(ctx, {"x"}), model)
     C11.r_dispatch(Only(ctx, {"x"}), model)
 
 
